@@ -7,6 +7,7 @@ import GB.C20.ProofsVerb
 import GB.C20.ProofsLegalMain
 import GB.C20.ProofsStSoundMain
 import GB.C20.ProofsGwSoundMain
+import GB.C20.ProofsClasses
 import GB.Generated.Facts
 /-
   C20 — property theorems. Helper lemmas live in Proofs*.lean.
@@ -130,17 +131,9 @@ example : Derives [47, 118, 49, 47, 123, 110, 97, 109, 101, 61, 97, 47, 42, 125,
   · decide
 
 /-
-  Full statement of the rejection clause (DESIGN 5.20):
-    C20_gw_rejects : noLeadingSlash s ∨ illegalChar s ∨ badPercent s ∨ badBraces s ∨ badFieldPath s ∨ emptySegment s
-                       → ∀ g, gwParse s ≠ .ok g
-  Proved below: no leading slash, NUL, illegal path characters (any byte outside the template alphabet,
-  anywhere in the string, the verb included — D22). The remaining classes (ill-formed percent-escape,
-  unbalanced / nested variables, bad field paths, empty segments) need the converse of
-  `C20_gw_complete_relaxed` (gwParse s = .ok g → ∃ t, DerivesRelaxed s t), which is not proved: it needs the
-  tokenizer/parser state synchronisation argument behind "variable inside variable is not possible thanks to
-  tokenize". They are checked on every run against the recogniser for all strings of length ≤ 5 over
-  {/ { } = . * : a %}, every single-edit mutation of sampled derivations, a byte sweep and random strings
-  (driver verdict VIOL), and `C20_gw_legacy_accept_fails` pins the D19 witnesses on the model.
+  First part of the rejection clause (no leading slash, NUL, illegal path characters — proved directly from the
+  "consumed tokens are legal" invariant, before the soundness theorem existed). Kept under its original name;
+  the full clause is `C20_gw_rejects` below.
 -/
 theorem C20_gw_rejects_partial (s : Bytes)
     (h : noLeadingSlash s = true ∨ (0 : UInt8) ∈ s ∨ illegalChar s = true) : ∀ g, gwParse s ≠ .ok g := by
@@ -188,6 +181,30 @@ theorem C20_gw_exact_relaxed (s : Bytes) : (∃ g, gwParse s = .ok g) ↔ (∃ t
     obtain ⟨g, h, _⟩ := C20_gw_complete_relaxed s t ht
     exact ⟨g, h⟩
 
+/-- **The rejection clause.** gwbased `Parse` rejects every string with no leading slash, a NUL, a byte outside the
+    template alphabet, an ill-formed percent-escape, unbalanced or nested variable braces, an empty or ill-formed
+    field path, or an empty segment — each class is disjoint from the relaxed grammar's language
+    (ProofsClasses.lean), and `C20_gw_sound` puts every accepted string into that language. -/
+theorem C20_gw_rejects (s : Bytes)
+    (h : noLeadingSlash s = true ∨ (0 : UInt8) ∈ s ∨ illegalChar s = true ∨ badPercent s = true ∨
+         badBraces s = true ∨ badFieldPath s = true ∨ emptySegment s = true) : ∀ g, gwParse s ≠ .ok g := by
+  intro g hg
+  obtain ⟨t, ⟨hw, hr⟩, _⟩ := C20_gw_sound s g hg
+  rcases h with h | h | h | h | h | h | h
+  · exact C20_gw_rejects_partial s (.inl h) g hg
+  · exact C20_gw_rejects_partial s (.inr (.inl h)) g hg
+  · exact C20_gw_rejects_partial s (.inr (.inr h)) g hg
+  · rw [← hr, render_badPercent true t hw] at h; exact absurd h (by simp)
+  · rw [← hr, render_badBraces true t hw] at h; exact absurd h (by simp)
+  · rw [← hr, render_badFieldPath true t hw] at h; exact absurd h (by simp)
+  · rw [← hr, render_emptySegment true t hw] at h; exact absurd h (by simp)
+
+/-- the classes are inhabited by the defect witnesses: "//" (D19), "/{a=/}" (D19), "/a:b}" (D22), "/a:%zz" (D22),
+    "/{a={b}}" (nested), "/{a.}" (empty field path component) -/
+example : emptySegment [47, 47] = true ∧ emptySegment [47, 123, 97, 61, 47, 125] = true ∧
+    badBraces [47, 97, 58, 98, 125] = true ∧ badPercent [47, 97, 58, 37, 122, 122] = true ∧
+    badBraces [47, 123, 97, 61, 123, 98, 125, 125] = true ∧ badFieldPath [47, 123, 97, 46, 125] = true := by decide
+
 /-! ### strict parser -/
 
 /-
@@ -219,6 +236,34 @@ theorem C20_strict_exact (s : Bytes) : (∃ T, stParse s = .ok T) ↔ (∃ t, De
   · rintro ⟨t, ht⟩
     obtain ⟨T, h, _⟩ := C20_strict_exact_partial s t ht
     exact ⟨T, h⟩
+
+/-- the same rejection clause for the strict parser -/
+theorem C20_strict_rejects (s : Bytes)
+    (h : noLeadingSlash s = true ∨ (0 : UInt8) ∈ s ∨ badPercent s = true ∨
+         badBraces s = true ∨ badFieldPath s = true ∨ emptySegment s = true) : ∀ T, stParse s ≠ .ok T := by
+  intro T hT
+  obtain ⟨t, hw, hr, _⟩ := stParse_sound s T hT
+  have hrej : ∀ hh : noLeadingSlash s = true ∨ (0 : UInt8) ∈ s, False := by
+    intro hh
+    unfold stParse at hT
+    cases s with
+    | nil => simp at hT
+    | cons c body =>
+      simp only at hT
+      by_cases hc : (c != cSlash) = true
+      · simp [hc] at hT
+      · simp only [hc, Bool.false_eq_true, if_false] at hT
+        rcases hh with hh | hh
+        · simp [noLeadingSlash] at hh hc; exact absurd hc hh
+        · have : (c :: body).contains 0 = true := by simpa using hh
+          rw [if_pos this] at hT; exact absurd hT (by simp)
+  rcases h with h | h | h | h | h | h
+  · exact hrej (.inl h)
+  · exact hrej (.inr h)
+  · rw [← hr, render_badPercent false t hw] at h; exact absurd h (by simp)
+  · rw [← hr, render_badBraces false t hw] at h; exact absurd h (by simp)
+  · rw [← hr, render_badFieldPath false t hw] at h; exact absurd h (by simp)
+  · rw [← hr, render_emptySegment false t hw] at h; exact absurd h (by simp)
 
 /-- the strict parser rejects what has no leading slash or contains the in-band eof byte -/
 theorem C20_strict_rejects_partial (s : Bytes) (h : noLeadingSlash s = true ∨ (0 : UInt8) ∈ s) :
